@@ -206,7 +206,7 @@ PROPERTIES = {
     ),
 }
 
-HOOK_COMMITS = ['5546537', '2fcdddd']
+HOOK_COMMITS = ['5546537', '2fcdddd', 'db7a873']
 NOTES = ('Every check re-extracts the functions it depends on from /repo\'s working tree, renders them with contracts and runs the verifiers; '
          'exit 0 held, exit 1 VIOLATION, exit 2 undecided (lost anchor / construct the verifier rejects / timeout) - never an alarm.')
 PENDING = 'within reach of the technique (DESIGN.md section 5) but its unit is not built yet; not claimed until it runs green with guards'
